@@ -103,6 +103,9 @@ def check_hist2d(run, tree, aspects=("limits", "layers")):
         ("explicit numbers, logarithmic x", {"xmin": 2.0, "xmax": 9.0, "ymin": 1.0, "ymax": 4.0}, True),
         ("explicit Quantities in another unit", {"xmin": QT("XLO@km", "km"), "xmax": QT("XHI@km", "km"), "ymin": 1.0, "ymax": 4.0}, False),
         ("one end given, the other automatic", {"xmin": 2.0, "ymax": 4.0}, False),
+        # 0 is a limit like any other (data on both sides of zero): it is not "no limit"
+        ("explicit numbers, two of them exactly 0", {"xmin": 0.0, "xmax": 9.0, "ymin": -4.0, "ymax": 0}, False),
+        ("one end given as 0, the other automatic", {"xmax": 0.0, "ymin": 0}, False),
     ]
     for label, lim, logx, nan_in_data in ([c + (n_,) for c in cases for n_ in ((False, True) if len(c[1]) < 4 else (None,))] if "limits" in aspects else []):
         construct = "%s::limits[%s%s]" % (H2D, label, "" if nan_in_data is None else (", data with a NaN" if nan_in_data else ", data without NaN (infinities possible)"))
